@@ -74,7 +74,21 @@ def run_one(scen, rundir, hook=True):
         stacks = open(rpath + '.stacks').read()
     except OSError:
         pass
-    rec['stacks'] = stacks[-6000:]
+    if status is None and stacks.strip():
+        # the watchdog fired: add what the children were doing
+        try:
+            stacks += '\n--- children: ' + open(rpath + '.children').read()[:1500]
+        except OSError:
+            pass
+        for n in sorted(os.listdir(evdir)):
+            if n.startswith('stacks.'):
+                try:
+                    txt = open(os.path.join(evdir, n)).read()
+                    if txt.strip():
+                        stacks += f'\n--- {n}:\n' + txt[-2500:]
+                except OSError:
+                    pass
+    rec['stacks'] = stacks[-9000:]
     try:
         rec['stderr'] = open(os.path.join(rundir, 'stderr')).read()[-3000:]
     except OSError:
@@ -99,6 +113,8 @@ def load_events(evdir):
     except OSError:
         return out
     for n in names:
+        if n.startswith('stacks.'):
+            continue
         evs = []
         try:
             for line in open(os.path.join(evdir, n)):
